@@ -30,10 +30,10 @@ def main():
             continue
         if con.assumed:
             continue
-        eng = Engine(ft, contracts, models)
+        eng = Engine(ft, contracts, models, axioms=list(getattr(mod, "AXIOMS", [])))
         t0 = time.time()
         try:
-            n = con.verify(eng)
+            n = con.custom_verify(eng) if hasattr(con, "custom_verify") else con.verify(eng)
         except Unsupported as e:
             print("UNSUPPORTED", con.name(), e)
             traceback.print_exc()
